@@ -1,3 +1,128 @@
-import GarbleVerif.Model.Arith
+import GarbleVerif.Proofs.ArithMul
+/-!
+# C03 — integer operators and casts are bit-exact at every width
+
+`Arith` says what the wiring of every operator computes on big-endian bit lists (tied to the
+compiled circuits by the behavioural correspondence of `./check C03`). The theorems below
+compare it with exact integer arithmetic (`toNat`, `toInt`) — **for every width `n ≥ 1`**, not
+only 8/16/32/64, and all operand values.
+
+Proved: `+` (unsigned, signed), `-` (unsigned, signed), unary `-`, unsigned `*`, `<`/`>`
+(unsigned, signed), `==`/`!=`, `&`/`|`/`^`/`!`, every cast.
+Not yet proved — kept as statements, explored exhaustively at 8 bits and at boundary values for
+wider types by the check: signed `*`, `/` and `%` (unsigned and signed), `<<`/`>>`, and the
+multiplication-by-literal rewrite (`C03_*_Statement`).
+-/
 namespace GV
+namespace Arith
+
+/-- unsigned `+`: exact sum unless the flag is set; flag ⇔ the sum needs more than `n` bits -/
+theorem C03_add_unsigned (x y : List Bool) (h : x.length = y.length) :
+    ((add x y).2.1 = true ↔ 2 ^ x.length ≤ toNat x + toNat y) ∧
+    ((add x y).2.1 = false → toNat (add x y).1 = toNat x + toNat y) ∧
+    (add x y).1.length = x.length := by
+  refine ⟨add_overflow_unsigned x y h, ?_, add_length x y h⟩
+  intro hf
+  have := add_spec x y h
+  simp [hf] at this
+  exact this
+
+/-- signed `+` on `n + 1` bits -/
+theorem C03_add_signed (a b : Bool) (x y : List Bool) (h : x.length = y.length) :
+    let r := add (a :: x) (b :: y)
+    ((r.2.1 ^^ r.2.2) = false → toInt r.1 = toInt (a :: x) + toInt (b :: y)) ∧
+    ((r.2.1 ^^ r.2.2) = true ↔
+      (toInt (a :: x) + toInt (b :: y) < -(2 : Int) ^ x.length ∨
+        (2 : Int) ^ x.length ≤ toInt (a :: x) + toInt (b :: y))) :=
+  add_signed a b x y h
+
+/-- unsigned `-` -/
+theorem C03_sub_unsigned (x y : List Bool) (h : x.length = y.length) :
+    ((sub x y false).2 = true ↔ toNat x < toNat y) ∧
+    ((sub x y false).2 = false → toNat (sub x y false).1 = toNat x - toNat y) ∧
+    (sub x y false).1.length = x.length :=
+  sub_unsigned x y h
+
+/-- signed `-` on `n + 1` bits -/
+theorem C03_sub_signed (a b : Bool) (x y : List Bool) (h : x.length = y.length) :
+    let r := sub (a :: x) (b :: y) true
+    (r.2 = true ↔ (toInt (a :: x) - toInt (b :: y) < -(2 : Int) ^ x.length ∨
+      (2 : Int) ^ x.length ≤ toInt (a :: x) - toInt (b :: y))) ∧
+    (r.2 = false → toInt r.1 = toInt (a :: x) - toInt (b :: y)) ∧
+    r.1.length = x.length + 1 :=
+  sub_signed a b x y h
+
+/-- unary `-`: panics exactly on the minimum value, otherwise the exact negation -/
+theorem C03_neg (a : Bool) (rest : List Bool) :
+    let r := negChecked (a :: rest)
+    (r.2 = true ↔ toInt (a :: rest) = -(2 : Int) ^ rest.length) ∧
+    (r.2 = false → toInt r.1 = - toInt (a :: rest)) :=
+  negChecked_spec a rest
+
+/-- unsigned `*` -/
+theorem C03_mul_unsigned (x y : List Bool) (h : x.length = y.length) (hn : 0 < x.length) :
+    let r := mul x y false
+    r.1.length = x.length ∧
+    (r.2 = false → toNat r.1 = toNat x * toNat y) ∧
+    (r.2 = true ↔ 2 ^ x.length ≤ toNat x * toNat y) :=
+  mul_unsigned x y h hn
+
+/-- `<` and `>` on unsigned operands -/
+theorem C03_cmp_unsigned (x y : List Bool) (h : x.length = y.length) :
+    comparator x false y false = (decide (toNat x < toNat y), decide (toNat y < toNat x)) :=
+  comparator_unsigned x y h
+
+/-- `<` and `>` on signed operands -/
+theorem C03_cmp_signed (a b : Bool) (x y : List Bool) (h : x.length = y.length) :
+    comparator (a :: x) true (b :: y) true =
+      (decide (toInt (a :: x) < toInt (b :: y)), decide (toInt (b :: y) < toInt (a :: x))) :=
+  comparator_signed a b x y h
+
+/-- `==` (and `!=` as its negation) -/
+theorem C03_eq (x y : List Bool) (h : x.length = y.length) : eqBits x y = true ↔ x = y :=
+  eqBits_iff x y h
+
+/-- every cast: target width, congruent to the source value modulo `2^k`, never a panic -/
+theorem C03_cast (a : Bool) (rest : List Bool) (s : Bool) (k : Nat) :
+    (cast (a :: rest) s k).length = k ∧
+    ∃ q : Int, valOf s (a :: rest) = (toNat (cast (a :: rest) s k) : Int) + q * (2 : Int) ^ k :=
+  ⟨cast_length _ s k (by simp), cast_spec a rest s k⟩
+
+/-! ### statements not yet proved (full statements kept visible) -/
+
+def C03_mul_signed_Statement : Prop :=
+  ∀ (a b : Bool) (x y : List Bool), x.length = y.length →
+    let r := mul (a :: x) (b :: y) true
+    (r.2 = false → toInt r.1 = toInt (a :: x) * toInt (b :: y)) ∧
+    (r.2 = true ↔ (toInt (a :: x) * toInt (b :: y) < -(2 : Int) ^ x.length ∨
+      (2 : Int) ^ x.length ≤ toInt (a :: x) * toInt (b :: y)))
+
+def C03_udiv_Statement : Prop :=
+  ∀ (x y : List Bool), x.length = y.length → 0 < toNat y →
+    toNat x = toNat (udiv x y).1 * toNat y + toNat (udiv x y).2 ∧ toNat (udiv x y).2 < toNat y
+
+def C03_sdiv_Statement : Prop :=
+  ∀ (a b : Bool) (x y : List Bool), x.length = y.length → toInt (b :: y) ≠ 0 →
+    ¬ (toInt (a :: x) = -(2 : Int) ^ x.length ∧ toInt (b :: y) = -1) →
+    toInt (sdiv (a :: x) (b :: y)).1 = Int.tdiv (toInt (a :: x)) (toInt (b :: y)) ∧
+    toInt (sdiv (a :: x) (b :: y)).2 = Int.tmod (toInt (a :: x)) (toInt (b :: y))
+
+def C03_shift_Statement : Prop :=
+  ∀ (left sx : Bool) (x amt : List Bool), x.length ∈ [8, 16, 32, 64] → amt.length = 8 →
+    ((shift left sx x amt).2 = true ↔ x.length ≤ toNat amt) ∧
+    (toNat amt < x.length →
+      (left = true → toNat (shift left sx x amt).1 = (toNat x * 2 ^ toNat amt) % 2 ^ x.length) ∧
+      (left = false → valOf sx (shift left sx x amt).1 = valOf sx x / (2 : Int) ^ toNat amt))
+
+/-! ### non-vacuity / sanity on concrete operands (8 bits) -/
+
+example : toInt [true, false, false, false, false, false, false, false] = -128 := by decide
+example : (negChecked [true, false, false, false, false, false, false, false]).2 = true := by decide
+example : (mul [false, true, false, false, false, false, false, false]
+    [false, false, false, false, false, false, true, false] true).2 = true := by decide +kernel   -- 64 * 2 (signed)
+example : (binop .div true true true [true, false, false, false, false, false, false, false]
+    [true, true, true, true, true, true, true, true]).2 =
+    [(false, .divByZero), (true, .overflow)] := by decide +kernel                      -- MIN / -1
+
+end Arith
 end GV
